@@ -132,6 +132,9 @@ fn crc32_alg(alg: &str) -> Option<&'static crc::Algorithm<u32>> {
 
 fn crc_allocvec(alg: &str, v: &DVal) -> Option<SerRes> {
     use postcard::ser_flavors::crc as c;
+    // a value that may be serialised only once: an entry point must run its Serialize impl exactly once
+    let once = crate::dval::Once::new(v);
+    let v = &once;
     macro_rules! f { (u8) => { c::to_allocvec_u8 }; (u16) => { c::to_allocvec_u16 }; (u32) => { c::to_allocvec_u32 }; (u64) => { c::to_allocvec_u64 }; (u128) => { c::to_allocvec_u128 }; }
     match alg {
         "CRC_8_SMBUS" => Some(f!(u8)(v, crc::Crc::<u8>::new(&crc::CRC_8_SMBUS).digest()).map_err(|e| err_name(&e))),
@@ -278,7 +281,37 @@ pub fn eval(ctx: &mut Ctx, op: &str, args: &[Sexp]) -> Option<String> {
     match op {
         "size" => {
             let v = DVal::from_sexp(args.first()?)?;
+            crate::dval::HR_SEEN.with(|c| c.set(false));
             let r = guard(|| postcard::experimental::serialized_size(&v));
+            if crate::dval::HR_SEEN.with(|c| c.replace(false)) {
+                ctx.oracle_fail("the serializer behind serialized_size claims is_human_readable() = true (types that branch on it are measured in another form than they are written)".into());
+            }
+            // real types whose Serialize impl branches on is_human_readable (text form vs packed form): the
+            // measuring call must see the same form as the writing calls
+            {
+                use std::net::{IpAddr, Ipv4Addr, Ipv6Addr, SocketAddr, SocketAddrV4};
+                fn same<T: serde::Serialize>(v: &T) -> Option<String> {
+                    let n = postcard::experimental::serialized_size(v).ok()?;
+                    let b = postcard::to_allocvec(v).ok()?;
+                    if n != b.len() {
+                        Some(format!("serialized_size says {} for a {} that encodes to {} bytes", n, std::any::type_name::<T>(), b.len()))
+                    } else {
+                        None
+                    }
+                }
+                let bad = guard(|| {
+                    same(&Ipv4Addr::new(192, 168, 100, 200))
+                        .or_else(|| same(&IpAddr::V6(Ipv6Addr::new(0xfe80, 0, 0, 0, 1, 2, 3, 4))))
+                        .or_else(|| same(&SocketAddr::V4(SocketAddrV4::new(Ipv4Addr::new(10, 0, 0, 1), 8080))))
+                        .or_else(|| same(&uuid::Uuid::from_u128(0x0123_4567_89ab_cdef_0123_4567_89ab_cdef)))
+                        .or_else(|| same(&(1u8, [Ipv4Addr::new(1, 2, 3, 4); 2], "x")))
+                });
+                match bad {
+                    Err(()) => ctx.oracle_fail("serialized_size panicked on a std::net / uuid value".into()),
+                    Ok(Some(b)) => ctx.oracle_fail(b),
+                    Ok(None) => {}
+                }
+            }
             Some(match r {
                 Err(()) => "FAIL panic in serialized_size".into(),
                 Ok(Ok(n)) => {
@@ -501,7 +534,7 @@ pub fn eval(ctx: &mut Ctx, op: &str, args: &[Sexp]) -> Option<String> {
             if !has_ty(&v, &t) {
                 return Some("bad-op".into());
             }
-            let a = match guard(|| postcard::to_allocvec_cobs(&v).map_err(|e| err_name(&e))) {
+            let a = match guard(|| postcard::to_allocvec_cobs(&crate::dval::Once::new(&v)).map_err(|e| err_name(&e))) {
                 Err(()) => return Some("FAIL panic in to_allocvec_cobs".into()),
                 Ok(a) => a,
             };
@@ -517,7 +550,7 @@ pub fn eval(ctx: &mut Ctx, op: &str, args: &[Sexp]) -> Option<String> {
                     return Some(format!("FAIL to_vec_cobs {:?} vs to_allocvec_cobs {:?}", h, a));
                 }
             }
-            let sv = guard(|| postcard::to_stdvec_cobs(&v).map_err(|e| err_name(&e)));
+            let sv = guard(|| postcard::to_stdvec_cobs(&crate::dval::Once::new(&v)).map_err(|e| err_name(&e)));
             if sv != Ok(a.clone()) {
                 return Some("FAIL to_stdvec_cobs differs".into());
             }
@@ -633,7 +666,7 @@ pub fn eval(ctx: &mut Ctx, op: &str, args: &[Sexp]) -> Option<String> {
                 if rs != Ok(a.clone()) || !g.intact() {
                     return Some(format!("FAIL to_slice_crc32 {:?} vs to_allocvec_crc {:?}", rs, a));
                 }
-                if guard(|| e(postcard::to_stdvec_crc32(&v, k.digest()))) != Ok(a.clone()) || guard(|| e(postcard::to_allocvec_crc32(&v, k.digest()))) != Ok(a.clone()) {
+                if guard(|| e(postcard::to_stdvec_crc32(&crate::dval::Once::new(&v), k.digest()))) != Ok(a.clone()) || guard(|| e(postcard::to_allocvec_crc32(&crate::dval::Once::new(&v), k.digest()))) != Ok(a.clone()) {
                     return Some("FAIL to_stdvec_crc32 / to_allocvec_crc32 differ from the flavour-level entry point".into());
                 }
                 let cap = HCAPS.iter().copied().find(|c| *c >= len).unwrap_or(4096);
@@ -909,6 +942,7 @@ pub fn gen_c05(r: &mut Rng, thorough: bool, out: &mut Vec<String>) {
     gen_flavseq(r, thorough, out);
     let n = if thorough { 6000 } else { 350 };
     let mut cases: Vec<(DTy, DVal)> = kind_corpus().into_iter().filter(|(_, v)| postcard::to_allocvec(v).map(|b| b.len() <= 30).unwrap_or(false)).collect();
+    cases.extend(header_only_vals());
     for i in 0..n {
         cases.push(small_val(r, i));
     }
